@@ -21,7 +21,8 @@ func init() {
 	})
 	register("C09", &propDef{
 		Title: "A bundle survives being re-opened and archived",
-		Rules: []func(*Checker){ruleC09Fields, ruleC09Archive, ruleChecksum("C09.checksum"), ruleC06ManifestAs("C09.addrs")},
+		Rules: []func(*Checker){ruleC09Fields, ruleC09Archive, ruleChecksum("C09.checksum"), ruleC06ManifestAs("C09.addrs"),
+			aliasRuleFiltered(ruleC13Maps, "C13.maps", "C09.lookup", 3, func(o Oblig) bool { return strings.Contains(o.Key, "sourcebundle.Bundle)") })},
 		NotDecided: []string{
 			"equality of two bundles; the Pack/Unpack round trip (C02) and address round trip (C06) for the values involved",
 			"package metadata with an empty commit id is not re-created on re-open (asymmetry noted, outside the structural rule)",
@@ -1147,6 +1148,7 @@ func ruleC17Final(c *Checker) {
 		return
 	}
 	ok := false
+	why := ""
 	for _, ci := range callsIn(fn) {
 		g := ci.Common().StaticCallee()
 		if g == nil || g.Name() != "AddRegistrySource" {
@@ -1155,15 +1157,21 @@ func ruleC17Final(c *Checker) {
 		for _, a := range ci.Common().Args {
 			cl := callOf(a)
 			if cl != nil && isFunc(calleeObj(cl), "github.com/apparentlymart/go-versions/versions", "Only") {
-				for v := range p.backSlice(cl.Call.Args[0], 0) {
-					if c2, ok2 := v.(*ssa.Call); ok2 && c2.Common().StaticCallee() != nil && c2.Common().StaticCallee().Name() == "SelectedVersion" {
-						ok = true
+				// the set is built from the selected version itself, not from something computed from it
+				ls := p.origins(cl.Call.Args[0], 0)
+				ok = len(ls) > 0
+				for _, l := range ls {
+					isSel := l.Kind == "call" && l.Callee != nil && l.Callee.Name() == "SelectedVersion"
+					isFld := l.Kind == "field" && l.Field != nil && l.Field.Name() == "version"
+					if !isSel && !isFld {
+						ok = false
+						why = " (the set is built from " + leafDesc(p, l) + ")"
 					}
 				}
 			}
 		}
 	}
-	c.check(ok, R, p.FuncName(fn), "exact version set", p.Pos(fn.Pos()), "versions.Only(addr.SelectedVersion())", "a final registry source is no longer pinned to its selected version")
+	c.check(ok, R, p.FuncName(fn), "exact version set", p.Pos(fn.Pos()), "versions.Only(addr.SelectedVersion())", "a final registry source is no longer pinned to exactly its selected version"+why+": e.g. with build metadata dropped, 1.2.3+b7 matches nothing the registry offers, or resolves to plain 1.2.3")
 }
 
 // ---------- C18 ----------
